@@ -248,8 +248,11 @@ def run(tier):
                 if "panicked" in d["message"] or any("panicked" in (c or "") for c in d["children"]):
                     rep.add("W-PANIC", "pos/%s panic" % mod, "the macro panicked while expanding witness module `%s`: %s"
                             % (mod, "; ".join([d["message"]] + [c for c in d["children"] if c][:1])))
+    # ---- (c') script-enumerated module item sequences: the macro's output must parse, and no panic
+    from ..modgen import load_modseq
+    load_modseq(rep, "plain", tier)
     rep.coverage.update({
-        "explanation": "(a) inventory of every panic-capable operation in the MIR of entrait_macros (core::panicking::*, unwrap/expect, indexing, Punctuated/Vec::insert, Ident::new / Lifetime::new / parse_quote! / format_ident!, overflow and bounds asserts); machine-discharged: constant valid identifier/lifetime literals, insert at index 0; the rest must match the reviewed table rules/c15_discharge.json keyed by (callee, type arguments | message) with confirmed counts. (b) %d negative witnesses (documented misuses with their message and token position, unsupported item kinds, malformed option lists): one compile, every module must receive a diagnostic, none may be a proc-macro panic. (c) no pos-corpus module fails with a proc-macro panic. (d) small-scope exhaustive sweep of attribute argument lists (all token sequences up to length 2 / 3 over an alphabet of option words, punctuation and junk) on fn, mod, trait and impl targets: accepted or rejected, never a panic." % len(mods),
+        "explanation": "(a) inventory of every panic-capable operation in the MIR of entrait_macros (core::panicking::*, unwrap/expect, indexing, Punctuated/Vec::insert, Ident::new / Lifetime::new / parse_quote! / format_ident!, overflow and bounds asserts); machine-discharged: constant valid identifier/lifetime literals, insert at index 0; the rest must match the reviewed table rules/c15_discharge.json keyed by (callee, type arguments | message) with confirmed counts. (b) %d negative witnesses (documented misuses with their message and token position, unsupported item kinds, malformed option lists): one compile, every module must receive a diagnostic, none may be a proc-macro panic. (c) no pos-corpus module fails with a proc-macro panic; every script-enumerated module item sequence (vlib/modgen.py: 532 quick / 4 488 thorough modules) expands to tokens that parse, without a panic. (d) small-scope exhaustive sweep of attribute argument lists (all token sequences up to length 2 / 3 over an alphabet of option words, punctuation and junk) on fn, mod, trait and impl targets: accepted or rejected, never a panic." % len(mods),
         "obligations": rep.counters.get("panic_capable_sites", 0) + len(mods),
         "discharged": rep.counters.get("panic_capable_sites", 0) + len(mods) - len(rep.findings),
         "checker_cmd": "./check C15 quick",
